@@ -108,6 +108,9 @@ type Position struct {
 	Abstract bool
 	Object   string // "Type.field"
 	Deferred bool
+	// Depth: for element positions, the nesting depth of the element (1 = element of the
+	// field's list, 2 = element of an inner list, ...)
+	Depth int
 }
 
 // Quirks switch the reference to gqlgen's (defective) behaviour for one named known
@@ -148,6 +151,10 @@ type Ref struct {
 	// non-null fields failed (as opposed to being removed by propagation from elsewhere)
 	InvalidOwn map[string]bool
 	errAt      map[string]bool
+	// structFilled: paths of objects that came out of a struct field of their parent (not
+	// out of a resolver): the harness fills such fields one level deep only
+	structFilled map[string]bool
+	fillMode     bool
 	// curField: "Type.field" of the resolver whose result is being completed
 	curField string
 	// DeferIgnored: @defer treated as plain (the undeferred reference run)
@@ -165,6 +172,7 @@ func elemPath(p string, i int) string { return p + "[" + strconv.Itoa(i) + "]" }
 // Execute runs the operation and returns the data value (Null when propagated to the root).
 func (r *Ref) Execute() *Val {
 	r.errAt = map[string]bool{}
+	r.structFilled = map[string]bool{}
 	var rootName string
 	switch r.Op.Operation {
 	case ast.Query:
@@ -525,8 +533,27 @@ func (r *Ref) field(obj *ast.Definition, objPath, path string, fd *ast.FieldDefi
 			return r.nonNullCheck(fd.Type, path, Null)
 		}
 	}
+	prev := r.fillMode
+	r.fillMode = false
+	if !r.IsResolver(obj.Name, fd.Name) && !r.isLeaf(namedTypeOf(fd.Type)) {
+		// an object-valued STRUCT field: filled by the harness unless the object it sits on
+		// came out of a struct field itself
+		if r.structFilled[objPath] {
+			r.fillMode = prev
+			return r.nonNullCheck(fd.Type, path, Null)
+		}
+		r.fillMode = true
+	}
 	v, _ := r.complete(fd.Type, objPath, path, fd.Name, outcome, fields)
+	r.fillMode = prev
 	return v
+}
+
+func namedTypeOf(t *ast.Type) string {
+	for t.Elem != nil {
+		t = t.Elem
+	}
+	return t.NamedType
 }
 
 // nonNullCheck applies the non-null rule at path for a value already known.
@@ -573,7 +600,9 @@ func (r *Ref) complete(t *ast.Type, objPath, path, fieldName, outcome string, fi
 				ev, _ = r.complete(t.Elem, objPath, ep, fieldName, "value", fields)
 			} else {
 				abstract := t.Elem.Elem == nil && r.isAbstract(t.Elem.NamedType)
-				r.Positions = append(r.Positions, Position{Path: ep, Kind: "element", GQLType: t.Elem.String(), Nilable: true, Abstract: abstract, Object: listField})
+				// a nil inner slice at a non-null list position is the empty list, not a null
+				innerNonNullList := t.Elem.Elem != nil && t.Elem.NonNull
+				r.Positions = append(r.Positions, Position{Path: ep, Kind: "element", GQLType: t.Elem.String(), Nilable: !innerNonNullList && !r.fillMode, Abstract: abstract, Object: listField, Depth: strings.Count(ep[len(listPathOf(ep)):], "[")})
 				switch eo := r.Plan.Get(ep); eo {
 				case "null":
 					if leaf && r.Quirks.ScalarElemErrorAtList {
@@ -618,8 +647,19 @@ func (r *Ref) complete(t *ast.Type, objPath, path, fieldName, outcome string, fi
 	for _, f := range fields {
 		sub = append(sub, f.SelectionSet...)
 	}
+	if r.fillMode {
+		r.structFilled[path] = true
+	}
 	v, ok := r.selectionSet(r.Schema.Types[concrete], path, sub)
 	return v, !ok
+}
+
+// listPathOf strips the trailing [i][j].. indices of an element path.
+func listPathOf(ep string) string {
+	for strings.HasSuffix(ep, "]") {
+		ep = ep[:strings.LastIndexByte(ep, '[')]
+	}
+	return ep
 }
 
 func parentOf(path string) string {
@@ -638,6 +678,8 @@ func LeafJSON(typeName, objPath, field, path string) string {
 	switch typeName {
 	case "Time":
 		return strconv.Quote(LeafTime.Format(time.RFC3339Nano))
+	case "Color":
+		return strconv.Quote(ColorOf(objPath, field))
 	case "Int":
 		return strconv.Itoa(LeafInt(objPath, field))
 	case "Boolean":
